@@ -45,7 +45,10 @@ MANIFEST = dict(
          "the real brier_score_for_ensemble over all thresholds = CRPS (fair and not)' are evaluated on the implementation "
          "against the Lean integral spec in exact arithmetic (also 'fair' tw values = weighted integral - offset of the "
          "chained members; also through tw_crps_for_ensemble + chaining_func_kwargs with differing defaults; for every "
-         "kind of ensemble-member coordinate incl. duplicate labels, which the value must not depend on), exhaustively for <=3 members over a 4-value pool in thorough.",
+         "kind of ensemble-member coordinate incl. duplicate labels, which the value must not depend on; the Brier thresholds are "
+         "handed over as list / tuple / numpy array / pandas Index / pandas Series with default, permuted, shifted, string and "
+         "other-threshold-valued index / single float, int, numpy float64, float or integer storage, and every Brier value is read back "
+         "by its threshold VALUE and compared with the Lean per-threshold value), exhaustively for <=3 members over a 4-value pool in thorough.",
     note="Trusted: Lean kernel; propext/Classical.choice/Quot.sound; the hand-written model (no translator: the code uses "
          "isel loops / concat) tied only by correspondence on dyadic inputs with tolerance 1e-9; SV.Fl (IEEE minus rounding, "
          "overflow, signed zero). Not proved, only compared: the under/over components of a single tw value as weighted "
@@ -60,6 +63,9 @@ RULE = ("one case = (function incl. tw_crps_for_ensemble called directly with ch
         "whose defaults differ from the supplied thresholds, method, components, members per forecast case incl. NaN, "
         "ensemble-member coordinate none/unique/duplicate (lagged 0,1,2,0,1,2)/strings/unsorted/NaN, obs, thresholds "
         "scalar/per-case, weights, reduction); values from a small dyadic pool with >= 50 % ties among members/obs/thresholds; "
+        "Brier-integral cases additionally draw the container of the event thresholds (list, tuple, ndarray, pandas Index, "
+        "pandas Series with default / permuted (sort_values) / shifted / string / other-threshold-valued index, integer storage "
+        "when all thresholds are integers) and one grid threshold passed as a single number (float / int / numpy float64); "
         "distinct = distinct canonical call; non-trivial = at least one non-NaN output and not malformed")
 
 COMPS = ["total", "under", "over", "spread"]
@@ -583,6 +589,83 @@ def tw_bounds(call):
     return None, None
 
 
+# ----------------------------------------------------------------------------- containers of event thresholds
+# brier_score_for_ensemble(event_thresholds: Real | Sequence[Real]): the score at threshold VALUE t is a function of t and
+# of the ensemble only -- never of the container the thresholds arrive in, nor of any labels that container carries
+# (a pandas Series has an INDEX next to its values; after sort_values() / a filter the index is permuted / not 0..n-1).
+THR_CONTAINERS = ["list", "list", "tuple", "ndarray", "ndarray", "series", "series-perm", "series-perm", "series-rot",
+                  "series-rot", "series-offset", "series-str", "pd-index"]
+TUPLE_DEFECT = "N-C06-1"    # notes/C06.md: a tuple of thresholds is rejected (ValueError) by the unchanged code
+
+
+def gen_thr_form(rng, grid):
+    """how the grid of thresholds is handed over: {"container", "index" (labels of a Series; JSON-able), "ints"}"""
+    n = len(grid)
+    kind = rng.choice(THR_CONTAINERS)
+    form = {"container": kind}
+    if kind == "series-perm":       # what pd.Series(unsorted).sort_values() leaves behind: a permutation of 0..n-1
+        perm = list(range(n))
+        for _ in range(4):
+            rng.shuffle(perm)
+            if perm != list(range(n)):
+                break
+        form["index"] = perm
+    elif kind == "series-rot":      # index labels that ARE threshold values -- of other thresholds
+        k = rng.randrange(1, n) if n > 1 else 0
+        form["index"] = (grid[k:] + grid[:k]) if rng.random() < 0.6 else list(reversed(grid))
+    elif kind == "series-offset":   # a filtered Series: increasing integer labels that are not 0..n-1
+        start, step = rng.choice([1, 5, -3]), rng.choice([1, 2])
+        form["index"] = [start + step * i for i in range(n)]
+    elif kind == "series-str":
+        form["index"] = rng.sample(["t%d" % i for i in range(n)], n)
+    # integer-valued thresholds stored as integers (python int / int64): the model value of an int 7 is 7
+    form["ints"] = bool(all(float(g).is_integer() and abs(g) < 2.0 ** 53 for g in grid) and rng.random() < 0.35)
+    return form
+
+
+def thr_container(grid, form):
+    import pandas as pd
+    vals = [int(g) for g in grid] if form.get("ints") else [float(g) for g in grid]
+    kind = form.get("container", "list")
+    if kind == "tuple":
+        return tuple(vals)
+    if kind == "ndarray":
+        return np.array(vals)
+    if kind == "pd-index":
+        return pd.Index(vals)
+    if kind.startswith("series"):
+        idx = form.get("index")
+        return pd.Series(vals) if idx is None else pd.Series(vals, index=list(idx))
+    return list(vals)
+
+
+def gen_thr_scalar(rng, grid):
+    """one threshold of the grid handed over as a single number"""
+    j = rng.randrange(len(grid))
+    forms = ["float", "np.float64"] + (["int", "int"] if float(grid[j]).is_integer() and abs(grid[j]) < 2.0 ** 53 else [])
+    return {"j": j, "form": rng.choice(forms)}
+
+
+def thr_scalar(grid, sc):
+    t = grid[sc["j"]]
+    return int(t) if sc["form"] == "int" else np.float64(t) if sc["form"] == "np.float64" else float(t)
+
+
+def brier_by_value(bs, grid, labels, tdim="threshold"):
+    """Brier values looked up by threshold VALUE: (array case x grid, None) or (None, description of what is wrong with
+    the threshold coordinate of the result)"""
+    got = [float(v) for v in np.asarray(bs[tdim].values).ravel()] if tdim in bs.coords else None
+    # every requested threshold value labels exactly one column (the grid has no duplicates); values are read by label
+    if got is None or len(got) != len(grid) or sorted(got) != sorted(grid):
+        return None, {"threshold_coordinate": got, "dims": [str(d) for d in bs.dims], "shape": list(bs.shape)}
+    if "c" in bs.dims:
+        bs = bs.sel(c=labels)
+    else:
+        return None, {"threshold_coordinate": got, "dims": [str(d) for d in bs.dims], "shape": list(bs.shape)}
+    cols = [np.asarray(bs.sel({tdim: t}).values, dtype=float).reshape(len(labels)) for t in grid]
+    return np.stack(cols, axis=1), None
+
+
 class Checker:
     """evaluates the statements of C06 on the implementation for a list of calls; used by the oracle and by replay"""
 
@@ -591,13 +674,13 @@ class Checker:
         self.kind = batch_kind
         self.fails = []
 
-    def fail(self, batch, call, sig, observed, expected, theorem=None, extra=None):
+    def fail(self, batch, call, sig, observed, expected, theorem=None, extra=None, tags=None):
         case = {"check": batch, "call": describe(call)}
         if extra:
             case.update(extra)
         self.fails.append(batch)
         self.ctx.fail(batch, self.kind, call["fn"], sig, case, observed=observed, expected=expected,
-                      tags={"fn": call["fn"], "method": call["method"], "check": batch}, theorem=theorem)
+                      tags=dict({"fn": call["fn"], "method": call["method"], "check": batch}, **(tags or {})), theorem=theorem)
 
     # -- 1. value = exact integral (Lean Spec through the driver); fair = integral - documented offset
     def integral(self, calls):
@@ -727,13 +810,37 @@ class Checker:
             fc, ob, _, md, labels = build(c)
             r = run_impl(c)
             self.ctx.case("brier-integral-eq-crps", describe(c), nontrivial=nontrivial(r))
-            try:
-                with np.errstate(all="ignore"):
-                    bs = brier_score_for_ensemble(fc, ob, md, grid, preserve_dims="all", fair_correction=fair)
-                bs = bs.sel(c=labels).transpose("c", "threshold")
-                B = np.asarray(bs.values, dtype=float)
-            except Exception as ex:  # noqa: BLE001
-                self.fail("brier-integral-eq-crps", c, "exception", core.exc_class(ex), "values")
+            # the thresholds are handed over in every container the signature allows (recorded in the call: replayable)
+            if not c.get("thr_form"):
+                c["thr_form"] = gen_thr_form(self.ctx.rng, grid)
+            if not c.get("thr_scalar"):
+                c["thr_scalar"] = gen_thr_scalar(self.ctx.rng, grid)
+            form = c["thr_form"]
+            self.ctx.tag("thresholds:" + form["container"] + ("+ints" if form.get("ints") else ""))
+            bs = None
+            for attempt in (form, dict(form, container="list")):
+                try:
+                    with np.errstate(all="ignore"):
+                        bs = brier_score_for_ensemble(fc, ob, md, thr_container(grid, attempt), preserve_dims="all",
+                                                      fair_correction=fair)
+                    break
+                except Exception as ex:  # noqa: BLE001
+                    if attempt["container"] == "tuple" and isinstance(ex, ValueError):
+                        # N-C06-1 (notes/C06.md): reported under its own tags; the values are then checked through a list
+                        self.fail("brier-integral-eq-crps", c, "threshold-container-tuple:exception", core.exc_class(ex),
+                                  "the same values as for list(event_thresholds)", "brierEns_eq_doc",
+                                  {"grid": grid}, tags={"defect": TUPLE_DEFECT, "container": "tuple"})
+                        continue
+                    self.fail("brier-integral-eq-crps", c, "exception", core.exc_class(ex) + ": " + str(ex)[:200], "values",
+                              None, {"grid": grid})
+                    break
+            if bs is None:
+                continue
+            B, wrong = brier_by_value(bs, grid, labels)
+            if B is None:
+                self.fail("brier-integral-eq-crps", c, "threshold-coordinate", wrong,
+                          {"threshold_coordinate": grid, "dims": ["c", "threshold"], "shape": [len(labels), len(grid)]},
+                          "brierEns_eq_doc", {"grid": grid})
                 continue
             if "err" in r:
                 continue
@@ -757,6 +864,8 @@ class Checker:
                         break
                 if bad:
                     break
+            if not bad:
+                self.scalar_threshold(c, fair, grid, labels, bres)
             for kk in range(len(labels)):
                 nvalid = sum(1 for x in c["members"][kk] if not math.isnan(x))
                 if fair and nvalid <= 1:
@@ -773,6 +882,33 @@ class Checker:
                     self.fail("brier-integral-eq-crps", c, "integral-of-brier-vs-spec", integ, want,
                               "brier_integral_eq_crps", {"grid": grid, "brier": B[kk].tolist(), "case_index": kk})
                     break
+
+    def scalar_threshold(self, c, fair, grid, labels, bres):
+        """one threshold of the grid handed over as a single number (python float / int, numpy float64): the value is the
+        Lean per-threshold value at that threshold, labelled with it"""
+        from scores.probability import brier_score_for_ensemble
+        sc = c["thr_scalar"]
+        if sc["j"] >= len(grid):
+            return
+        t = thr_scalar(grid, sc)
+        self.ctx.tag("thresholds:scalar-" + sc["form"])
+        fc, ob, _, md, _ = build(c)
+        try:
+            with np.errstate(all="ignore"):
+                bs = brier_score_for_ensemble(fc, ob, md, t, preserve_dims="all", fair_correction=fair)
+        except Exception as ex:  # noqa: BLE001
+            self.fail("brier-integral-eq-crps", c, "scalar-threshold:exception", core.exc_class(ex) + ": " + str(ex)[:200],
+                      "values", "brierEns_eq_doc", {"grid": grid, "threshold": float(t)})
+            return
+        B1, wrong = brier_by_value(bs, [float(t)], labels)
+        if B1 is None:
+            self.fail("brier-integral-eq-crps", c, "scalar-threshold-coordinate", wrong, {"threshold_coordinate": [float(t)]},
+                      "brierEns_eq_doc", {"grid": grid, "threshold": float(t)})
+            return
+        exp = [bres[kk]["spec"][sc["j"]] for kk in range(len(labels))]
+        if not cmp_lists([float(v) for v in B1[:, 0]], exp, core.close):
+            self.fail("brier-integral-eq-crps", c, "scalar-threshold-value-vs-spec", B1[:, 0].tolist(), exp, "brierEns_eq_doc",
+                      {"grid": grid, "threshold": float(t)})
 
     # -- 5. invariances between implementation runs: member order, translation, scaling, NaN members dropped
     def invariance(self, calls):
